@@ -31,6 +31,7 @@ type taskT struct {
 	Parent int         `json:"parent"` // index into the prepared roots (0 = empty root)
 	KV     [][2]string `json:"kv,omitempty"`
 	Read   bool        `json:"read,omitempty"` // read root number Parent among: prepared roots + roots this worker committed
+	Alias  int         `json:"alias,omitempty"` // update: what the worker does with the request's memory after the reply (alias* bits)
 }
 
 type concCaseT struct {
@@ -53,12 +54,20 @@ func call(cl queue.Client, ty int64, data interface{}) (*queue.Message, error) {
 	return reply, err
 }
 
-func qMemSet(cl queue.Client, parent []byte, kv [][2]string, height int64) ([]byte, error) {
-	reply, err := call(cl, types.EventStoreMemSet, &types.StoreSetWithSync{Storeset: storeSet(parent, kv, height), Sync: false})
+// qMemSet sends one update; once the reply is in, the client treats the request's memory as its own again
+// (alias bits and pool as in the sequential variant: the message carries pointers, not copies).
+func qMemSet(cl queue.Client, parent []byte, kv [][2]string, height int64, alias int, pool []byte) ([]byte, error) {
+	if alias&aliasPool == 0 {
+		pool = nil
+	}
+	req := &types.StoreSetWithSync{Storeset: buildSet(parent, kv, height, pool), Sync: false}
+	reply, err := call(cl, types.EventStoreMemSet, req)
 	if err != nil {
 		return nil, err
 	}
-	return reply.GetData().(*types.ReplyHash).GetHash(), nil
+	root := append([]byte(nil), reply.GetData().(*types.ReplyHash).GetHash()...)
+	scribble(req.Storeset, alias)
+	return root, nil
 }
 
 func qHash(cl queue.Client, ty int64, root []byte) ([]byte, error) {
@@ -69,11 +78,22 @@ func qHash(cl queue.Client, ty int64, root []byte) ([]byte, error) {
 	return reply.GetData().(*types.ReplyHash).GetHash(), nil
 }
 
+// qGet reads through the queue with key buffers of its own, which it overwrites once the reply is in.
 func qGet(cl queue.Client, root []byte, keys [][]byte) ([][]byte, error) {
-	reply, err := call(cl, types.EventStoreGet, &types.StoreGet{StateHash: root, Keys: keys})
+	req := &types.StoreGet{StateHash: root}
+	for _, k := range keys {
+		req.Keys = append(req.Keys, append([]byte{}, k...))
+	}
+	reply, err := call(cl, types.EventStoreGet, req)
 	if err != nil {
 		return nil, err
 	}
+	for _, k := range req.Keys {
+		for i := range k {
+			k[i] ^= 0x5a
+		}
+	}
+	req.Keys = req.Keys[:0]
 	return reply.GetData().(*types.StoreReplyValue).Values, nil
 }
 
@@ -111,7 +131,7 @@ func genConcCase(t *rapid.T) concCaseT {
 				continue
 			}
 			id++
-			tk := taskT{ID: id, Parent: parent, Fate: rapid.SampledFrom([]string{"commit", "commit", "rollback", "rollback", "abandon"}).Draw(t, "fate")}
+			tk := taskT{ID: id, Parent: parent, Fate: rapid.SampledFrom([]string{"commit", "commit", "rollback", "rollback", "abandon"}).Draw(t, "fate"), Alias: genAlias(t)}
 			// at most one empty update per parent: two of them would share the pending entry of the parent hash
 			if !emptyOn[parent] && rapid.IntRange(0, 11).Draw(t, "emptyBatch") == 0 {
 				emptyOn[parent] = true
@@ -159,7 +179,7 @@ func runConcurrent(t lib.TB, test string, cs concCaseT) (nt bool) {
 	for i, b := range cs.Base {
 		parent := m.corder[i]
 		v := &verT{content: apply(m.committed[parent].content, b), height: int64(i + 1)}
-		root, err := qMemSet(cl, []byte(parent), b, heightBase+v.height)
+		root, err := qMemSet(cl, []byte(parent), b, heightBase+v.height, 0, nil)
 		guard(err, "MemSet")
 		if err != nil || len(root) == 0 {
 			fail("prepare %d: MemSet replied %x, %v", i, root, err)
@@ -203,6 +223,7 @@ func runConcurrent(t lib.TB, test string, cs concCaseT) (nt bool) {
 		go func(w int) {
 			defer wg.Done()
 			cl := f.q.Client()
+			pool := make([]byte, 4096) // this worker's reusable encode buffer
 			readable := append([]string{}, prepared...)
 			contents := map[string]map[string]string{}
 			for _, r := range prepared {
@@ -231,7 +252,7 @@ func runConcurrent(t lib.TB, test string, cs concCaseT) (nt bool) {
 				parent := prepared[tk.Parent]
 				pv := m.committed[parent]
 				content := apply(pv.content, tk.KV)
-				root, err := qMemSet(cl, []byte(parent), tk.KV, heightBase+pv.height+1)
+				root, err := qMemSet(cl, []byte(parent), tk.KV, heightBase+pv.height+1, tk.Alias, pool)
 				if (err != nil || len(root) == 0) && bad(err, "MemSet", "MemSet %d on committed parent %x replied %x, %v", tk.ID, parent, root, err) {
 					return
 				}
@@ -370,6 +391,13 @@ func TestPropConcurrentQueue(t *testing.T) {
 			lib.NonTrivialCase(cs)
 		}
 		lib.Class("concurrent_history")
+		for _, ts := range cs.Workers {
+			for _, tk := range ts {
+				if !tk.Read && tk.Alias != 0 {
+					lib.Class("concurrent_alias_update")
+				}
+			}
+		}
 		if cs.Cfg.MemTree {
 			lib.Class("concurrent_cfg_memtree")
 		}
